@@ -12,15 +12,18 @@ import time
 import common
 from common import REPO, WORK
 
-MIR_DIR = os.path.join(WORK, "mir")
+SUFFIX = os.environ.get("VERIF_KANI_TARGET_SUFFIX", "")
+MIR_DIR = os.path.join(WORK, "mir" + SUFFIX)
 POOL_PROPS = {"C01", "C02", "C09", "C10", "C13", "C20"}
-MIR_PROPS = POOL_PROPS | {"C06"}
+MIR_PROPS = POOL_PROPS | {"C06", "C15", "C08", "C03"}
 
 
 def source_hash():
     h = hashlib.sha256()
+    import lift
     for path in sorted(glob.glob(os.path.join(REPO, "crates", "*", "src", "**", "*.rs"), recursive=True) +
-                       glob.glob(os.path.join(REPO, "crates", "*", "Cargo.toml")) + [os.path.join(REPO, "Cargo.lock")]):
+                       glob.glob(os.path.join(REPO, "crates", "*", "Cargo.toml")) + [os.path.join(REPO, "Cargo.lock")] +
+                       glob.glob(os.path.join(common.KANI_DIR, "*.rs")) + glob.glob(os.path.join(lift.GEN_DIR, "*.rs"))):
         h.update(path.encode())
         h.update(open(path, "rb").read())
     return h.hexdigest()[:16]
@@ -29,21 +32,26 @@ def source_hash():
 def dump_mir(force=False):
     """textual MIR of erbium-core (dev profile semantics: overflow checks on), regenerated when the source changed"""
     os.makedirs(MIR_DIR, exist_ok=True)
+    common.extract_env()      # regenerates the lifted sources first
     key = source_hash()
     out = os.path.join(MIR_DIR, f"core-{key}.mir")
     if os.path.exists(out) and os.path.getsize(out) > 100000 and not force:
         return out, 0.0, True
     for old in glob.glob(os.path.join(MIR_DIR, "core-*.mir")):
         os.remove(old)
-    tdir = os.path.join(WORK, "mir-target")
+    tdir = os.path.join(WORK, "mir-target" + SUFFIX)
     for fp in glob.glob(os.path.join(tdir, "debug", ".fingerprint", "erbium-core-*")):
         shutil.rmtree(fp, ignore_errors=True)
     env = dict(os.environ)
+    env.update({k: v for k, v in common.extract_env().items() if not k.endswith("_ERR") and not k.startswith("_")})
+    env.setdefault("VERIF_C16_MIN_COST", "0")
+    env["ISOMER_ERBIUM_VERIF_DIR"] = common.KANI_DIR
     env["CARGO_NET_OFFLINE"] = "true"
     env["CARGO_TARGET_DIR"] = tdir
     env.pop("RUSTUP_TOOLCHAIN", None)
-    cmd = ["cargo", "+nightly", "rustc", "--offline", "-p", "erbium-core", "--lib", "--", "-Zunpretty=mir",
-           "-C", "debug-assertions=off", "-C", "overflow-checks=on"]
+    # feature on + cfg isomer_erbium_mir: the dump also contains the lifted synchronous copies of async-inline logic
+    cmd = ["cargo", "+nightly", "rustc", "--offline", "-p", "erbium-core", "--lib", "--features", "isomer_erbium_verif", "--",
+           "--cfg", "isomer_erbium_mir", "-Zunpretty=mir", "-C", "debug-assertions=off", "-C", "overflow-checks=on"]
     t0 = time.time()
     with open(out + ".tmp", "w") as f, open(os.path.join(MIR_DIR, "dump.log"), "w") as log:
         p = subprocess.run(cmd, cwd=REPO, env=env, stdout=f, stderr=log, timeout=1800)
@@ -118,6 +126,51 @@ def run_property(pid, tier, seed, logdir):
                     failed=_dedup(failed), paths=npaths, path_kinds=kinds, wall_s=round(time.time() - t0, 1)))
             except (Unsupported, Unwind) as e:
                 obligations.append(dict(name=name, engine="mirsym", functions=[], bounds="", oracle="", stubs=[], tier=tier,
+                                        verdict="inconclusive", reason=f"outside the encoder's subset: {e}", queries=0, solver_time_s=0, failed=[]))
+        return obligations
+    if pid in ("C15", "C08", "C03"):
+        from mirsym import props_lifted, enums as _en
+        import itertools
+        structs = _en.scan_structs(REPO)
+        lift_stub = ["async fn body lifted verbatim into a synchronous fn by lib/lift.py (rewrites: strip `.await`, rename self, map `super::`)",
+                     "tokio RwLock read = identity (single task)", "next handler in the chain = recording stub", "logging disabled"]
+        if pid == "C03":
+            lift_stub = [lift_stub[0], "add_edns (NSID / server cookie via HMAC: fills only the reply's own OPT options) = no-op", "derived Clone = structural copy",
+                         "record names abstracted to identities"]
+        jobs = []
+        if pid == "C03":
+            shapes = [(1, 1, 1), (2, 0, 1), (0, 1, 0), (0, 0, 0)] if tier == "quick" else [(1, 1, 1), (2, 0, 1), (0, 1, 0), (0, 0, 0), (2, 2, 2), (0, 3, 1), (3, 0, 0)]
+            for sh in shapes:
+                jobs.append(("c03_reply_sections_%d_%d_%d" % sh, (lambda sh=sh: props_lifted.reply_obligation(prog, en, structs, sh)),
+                             "upstream reply with %d answer + %d authority + %d additional records (owner, type, TTL, data of every record symbolic and distinct per record), symbolic rcode and header bits; client query with symbolic id, question, with/without EDNS" % sh,
+                             "reply id and question = the client's; QR set; rcode, answer, authority and additional sections = the upstream's, record by record and in order"))
+        elif pid == "C08":
+            jobs.append(("c08_dns_acl_gate", lambda: props_lifted.dnsacl_obligation(prog, en, structs),
+                         "every query: RD symbolic, qtype symbolic over all 65536 types, source port absent/any, ACL verdict arbitrary (require_permission itself is decided by the Kani harnesses c08_acl_*)",
+                         "dns-recursion permission checked exactly once for every query; a refused client gets RefusedByAcl and never reaches routing/cache/upstream; the query is passed on only after a grant"))
+        else:
+            if tier == "quick":
+                shapes = sorted(set(itertools.permutations((0, 1, 2))) | set(itertools.permutations((1, 2, 3))) | {(1, 1, 1), (2, 2, 1), (0, 0, 1), (3, 1, 1)})
+            else:
+                shapes = list(itertools.product(range(4), repeat=3))
+            for sh in shapes:
+                jobs.append(("c15_router_suffix_lengths_%d_%d_%d" % sh, (lambda sh=sh: props_lifted.router_obligation(prog, en, structs, sh)),
+                             "3 routes x 1 suffix with %d, %d, %d labels (1-octet labels, all octets symbolic = every case mix), each route forward(to its own server) or forge-nxdomain (both), 3-label symbolic query name, RD symbolic; together the shapes cover every order of nested/sibling suffixes" % sh,
+                             "outcome = action of the matching suffix with most labels: forge-nxdomain => Blocked and nothing sent upstream; forward => sent to that route's server iff RD else NotAuthoritative; no match => NoRouteConfigured; ties between different actions of equal length left unconstrained"))
+            jobs.append(("c15_router_multi_suffix_route", lambda: props_lifted.router_obligation(prog, en, structs, (1, 0), multi=True),
+                         "route 0 with two suffixes (1 and 2 labels) + catch-all route (empty suffix); symbolic octets, actions, RD", "as above"))
+        for name, job, bounds, oracle in jobs:
+            t0 = time.time()
+            try:
+                failed, ex, npaths, kinds = job()
+                for f in failed:
+                    f["check"] = name
+                obligations.append(dict(name=name, engine="mirsym", functions=sorted(f.split("::")[-1] for f in ex.encoded_fns), bounds=bounds, oracle=oracle,
+                                        stubs=lift_stub + sorted(ex.used_summaries), tier=tier, verdict="fail" if failed else "pass", reason="",
+                                        queries=ex.queries, solver_time_s=round(ex.solver_time, 2), failed=_dedup(failed), paths=npaths, path_kinds=kinds,
+                                        wall_s=round(time.time() - t0, 1)))
+            except (Unsupported, Unwind) as e:
+                obligations.append(dict(name=name, engine="mirsym", functions=[], bounds=bounds, oracle=oracle, stubs=lift_stub, tier=tier,
                                         verdict="inconclusive", reason=f"outside the encoder's subset: {e}", queries=0, solver_time_s=0, failed=[]))
         return obligations
     if pid == "C20":
